@@ -19,6 +19,9 @@ EXPLANATION = (
     "unresolved-reference handler (missing id) is present. Not decided: equality of sibling geometry with and without the "
     "faulty element (values); exceptions from interpreter internals."
 )
+TECHNIQUE = (
+    "static analysis (no execution): exception-escape analysis from every element construction site (may-raise sets propagated over the call graph, subtracted at handlers); recursion guard check; push/pop path counting; result-is-root"
+)
 ASSUMPTIONS = [
     "Exception sources are the confirmed kinds listed in sva/excflow.py; calls that cannot be resolved contribute nothing (their count is reported).",
     "The XML parser itself (iterparse) is outside the module: malformed XML is outside the property (well-formed documents).",
